@@ -63,6 +63,14 @@ def sig_matches(entry_sig: List[str], sig: List[str]) -> bool:
     return all(e == "*" or e == s for e, s in zip(entry_sig, sig))
 
 
+def _entry_sigs(f: dict) -> List[List[str]]:
+    out = []
+    if "signature" in f:
+        out.append(f["signature"])
+    out.extend(f.get("signatures", []))
+    return out
+
+
 class Ctx:
     def __init__(self, prop: str, tier: str, seed: int, level: str):
         self.prop = prop
@@ -86,7 +94,9 @@ class Ctx:
     # -- violations -------------------------------------------------------
     def add(self, v: Violation) -> None:
         for f in self.findings:
-            if f.get("status") == "open" and sig_matches(f["signature"], v.signature):
+            if f.get("status") == "open" and any(
+                sig_matches(es, v.signature) for es in _entry_sigs(f)
+            ):
                 self.known_hits[f["id"]] = self.known_hits.get(f["id"], 0) + 1
                 return
         key = json.dumps(v.signature)
